@@ -100,6 +100,7 @@ def useToks (specs : List String) : UseSt → List String → Option UseSt
     else if t == "+e" then useToks specs { s with rx := { s.rx with nEed := s.rx.nEed + 1 } } ts
     else if t == "+n" then useToks specs { s with rx := { s.rx with nEnv := s.rx.nEnv + 1 } } ts
     else if t == "snd" then useToks specs s ts   -- a send in mid-response: nothing changes on the receive side
+    else if t == "+E" ∨ t == "+N" then useToks specs s ts   -- a refused registration (nil hook): nothing is registered
     else
       match t.splitOn ":" with
       | ["H", ty] | ["h", ty] =>   -- H: header-only packet with the EOM status; it is not queued, so the status is irrelevant
